@@ -58,10 +58,10 @@ type IArgD struct {
 	T string `json:"t"`
 }
 type PredD struct {
-	Dyn bool    `json:"dyn"`
-	Off string  `json:"off"`
-	Op  int     `json:"op"`
-	IA  []IArgD `json:"ia"`
+	Dyn bool     `json:"dyn"`
+	Off string   `json:"off"`
+	Op  int      `json:"op"`
+	IA  []IArgD  `json:"ia"`
 	BA  []string `json:"ba"`
 }
 type LogD struct {
